@@ -173,6 +173,29 @@ impl ToTokens for TraitVisibility<'_> {
                             push_tokens!(stream, syn::token::Super::default());
                         });
                     }
+                    // A path that is relative to the place of the attribute (`pub(self)`, `pub(super)`, `pub(in super::..)`)
+                    // is one module further away when seen from inside the module:
+                    syn::Visibility::Restricted(restricted)
+                        if restricted.path.is_ident("self")
+                            || restricted.path.segments.first().map(|s| s.ident == "super")
+                                == Some(true) =>
+                    {
+                        let mut path = restricted.path.as_ref().clone();
+                        if restricted.path.is_ident("self") {
+                            path = syn::parse_quote! { super };
+                        } else {
+                            path.segments.insert(0, syn::parse_quote! { super });
+                        }
+                        let in_token = if path.segments.len() > 1 {
+                            Some(syn::token::In::default())
+                        } else {
+                            None
+                        };
+                        push_tokens!(stream, restricted.pub_token);
+                        restricted.paren_token.surround(stream, |stream| {
+                            push_tokens!(stream, in_token, path);
+                        });
+                    }
                     _ => {
                         push_tokens!(stream, self.visibility);
                     }
